@@ -59,17 +59,17 @@ type inst struct {
 }
 
 type Runner struct {
-	Spec   *Spec
-	Tr     *Trace
-	St     *Store
-	insts  map[string]*inst
-	order  []*inst
-	groups map[string][]*inst
-	mu     sync.Mutex
-	ctxs   []*ctxRec
-	acts   sync.WaitGroup
-	quit   chan struct{}
-	t      *testing.T
+	Spec        *Spec
+	Tr          *Trace
+	St          *Store
+	insts       map[string]*inst
+	order       []*inst
+	groups      map[string][]*inst
+	mu          sync.Mutex
+	ctxs        []*ctxRec
+	acts        sync.WaitGroup
+	quit        chan struct{}
+	t           *testing.T
 	yieldClient *Client
 }
 
@@ -126,6 +126,7 @@ func (m recMetrics) SetIsLeader(v float64, _ prometheus.Labels) {
 	i := m.i
 	r := i.r
 	flag := v == 1
+	r.St.Client(i.spec.Name).atPhase(fmt.Sprintf("metric:isleader:%d", int(v)), "sink")
 	i.gauge.Store(int32(v))
 	// Instant cross-read: atomically (w.r.t. the store) read the live record and
 	// every other instance's claim. The caller holds its own election mutex, so
@@ -154,6 +155,8 @@ func (m recMetrics) SetConnectionStatus(v float64, _ prometheus.Labels) {
 	m.i.r.add(Event{Kind: "gauge.conn", Inst: m.i.spec.Name, N: int64(v)})
 }
 func (m recMetrics) IncTransitions(l prometheus.Labels) {
+	// a metrics sink is user code and may be slow: scenarios can hold the call here
+	m.i.r.St.Client(m.i.spec.Name).atPhase("metric:transition:"+l["to_state"], "sink")
 	m.i.r.add(Event{Kind: "transition", Inst: m.i.spec.Name, From: l["from_state"], To: l["to_state"]})
 }
 func (m recMetrics) IncFailures(l prometheus.Labels) {
@@ -167,6 +170,7 @@ func (m recMetrics) IncTokenValidationFailures(prometheus.Labels) {
 }
 func (m recMetrics) ObserveHeartbeatDuration(time.Duration, prometheus.Labels) {}
 func (m recMetrics) ObserveLeaderDuration(d time.Duration, _ prometheus.Labels) {
+	m.i.r.St.Client(m.i.spec.Name).atPhase("metric:leaderdur", "sink")
 	m.i.r.add(Event{Kind: "metric", Inst: m.i.spec.Name, S: "leaderdur", N: int64(d)})
 }
 
@@ -189,6 +193,7 @@ func (h scriptHealth) Check(ctx context.Context) bool {
 		dl = int64(time.Until(d))
 	}
 	i.r.add(Event{Kind: "health.check", Inst: i.spec.Name, N: dl, S: string(c), Call: idx})
+	i.r.St.Client(i.spec.Name).atPhase("health:"+string(c), "check") // (scenarios can hold a check in flight)
 	switch c {
 	case 'u':
 		return false
@@ -552,6 +557,24 @@ func (r *Runner) act(a *Action) {
 		r.async(i, a.Sync, func() { r.doStop(i, a.Stop, false) })
 	case "restart":
 		r.async(i, a.Sync, func() { r.doStop(i, a.Stop, false); r.doStart(i) })
+	case "stopleader":
+		// stop whichever instance of the group (a.Inst carries the key) leads right now
+		for _, x := range r.groups[a.Inst] {
+			if x.el != nil && x.el.IsLeader() {
+				x := x
+				r.add(Event{Kind: "action", Inst: x.spec.Name, S: "stop", Msg: "stopleader"})
+				r.async(x, a.Sync, func() { r.doStop(x, a.Stop, false) })
+				break
+			}
+		}
+	case "startstopped":
+		for _, x := range r.groups[a.Inst] {
+			if x.el != nil && x.el.Status().State == leader.StateStopped {
+				x := x
+				r.add(Event{Kind: "action", Inst: x.spec.Name, S: "start", Msg: "startstopped"})
+				r.async(x, a.Sync, func() { r.doStart(x) })
+			}
+		}
 	case "crash":
 		r.St.SetPartition(a.Inst, true)
 		r.add(Event{Kind: "crash", Inst: a.Inst})
@@ -623,6 +646,17 @@ func (r *Runner) act(a *Action) {
 			time.Sleep(time.Millisecond)
 		}
 		r.add(Event{Kind: "waitapi.done", Inst: a.Inst, N: int64(i.npend.Load())})
+	case "spin":
+		// real (not virtual) time for the other goroutines of the bubble to run as far as
+		// they can: used while a goroutine is held inside a library critical section, where
+		// virtual time cannot advance (a sync.Mutex wait is not a durable block)
+		n := int(a.D / time.Microsecond)
+		if n <= 0 {
+			n = 5000
+		}
+		for k := 0; k < n; k++ {
+			runtime.Gosched()
+		}
 	case "sleep":
 	case "sample":
 		r.sample("action")
